@@ -4,7 +4,7 @@ package polyjson
 
 // C15: JSON is a lossless interchange form for annotated sequences.
 //
-// verif:bound C15 structured sequences: every string field of Meta / Locus / Reference / Feature one symbolic printable byte (metadata) or 1..2 bytes, the sequence 5 symbolic letters, Locus flags and region bounds symbolic, feature coordinates from six spans (whole, interior, zero-width inside / at either end, last base); 0..1 (quick) / 0..2 (thorough) references, Other map absent / empty / one entry, 0..1 (quick) / 0..2 (thorough) features each with a location tree of depth <= 2 (quick) / 3 (thorough) with symbolic partial flags, attribute map absent / empty / one entry
+// verif:bound C15 structured sequences: every string field of Meta / Locus / Reference / Feature one symbolic printable byte (metadata) or 1..2 bytes, the sequence 5 symbolic letters, Locus flags and region bounds symbolic, feature coordinates from six spans (whole, interior, zero-width inside / at either end, last base); 0..1 (quick) / 0..2 (thorough) references, Other map absent / empty / one entry, 0..1 (quick) / 0..2 (thorough) features each with a location tree of depth <= 1 (quick) / 2 for the first feature (thorough) with symbolic partial flags, attribute map absent / empty / one entry
 // verif:bound C15 format round trip: one GenBank record (3 feature tables) and one GFF record with symbolic name, words, qualifier / attribute values and sequence: Build(Parse(text)) equals Build(polyjson.Parse(JSON(Parse(text)))) byte for byte
 // verif:assume C15 encoding/json is replaced by a contract model that walks the REAL struct types and tags of /repo's current source (exported fields, json:"name", json:"-", omitempty, duplicate names dropped, case-insensitive decode, nil <-> null); the JSON text layer (syntax, escaping, non-ASCII) is not modelled
 // verif:bound C15 outside the claim: JSON text syntax and escaping, non-ASCII text, temp files (Read/Write), long records
@@ -101,7 +101,7 @@ func Harness_C15_RoundTrip() {
 		case 2:
 			f.Attributes = map[string]string{"gene": vBytes(2, c15Printable())}
 		}
-		f.SequenceLocation = c15Loc(vTier(1, 2), L)
+		f.SequenceLocation = c15Loc(1+vTier(0, 1)*(1-i), L) // depth 2 only for the first feature in thorough
 		seq.AddFeature(&f)
 	}
 	for i := 0; i < nf; i++ {
